@@ -10,9 +10,12 @@ import Glom.Model.C09Env
                                                               -- iteration order CPython gave them
           "impl":Obs, "impl_verify":Obs, "impl_matches":bool|null, "impl_after":V}
          | {"spec":…, "default":…, "targets":[V…], "spec_built":…, "targets_built":[V…],
-            "impl_seq":[Obs…]}        -- one Match object, consecutive glom calls
+            "impl_seq":[Obs9…]}       -- one Match object, consecutive calls; Obs9 = {"main":Obs,"verify":Obs,
+                                      --   "matches":bool|null,"after":V}  (or [{"ctor":cls}])
          | {"spec":…, "default":…, "hist":[HStep…], "spec_built":…, "hist_built":[HStep…],
-            "impl_hist":[Obs|null…]}  -- one Match object; HStep: {"call":V} | {"register":[abc,class]}
+            "impl_hist":[Obs9|null…]} -- one Match object; HStep: {"call":V} | {"register":[abc,class]}
+         a case without a target, an empty "targets" / "hist", an observation list of another length
+         than the calls: decode ERROR (never half-judged)
          every kind: optional "world":[[class,base]…] (user classes declared by the case),
                      optional "copy":"copy"|"deepcopy"|"pickle" (the Match object used is that copy;
                      "copy_used": the way of copying the harness actually applied)
@@ -30,6 +33,28 @@ def obs9ToJson (o : Obs9) : Json :=
   Json.mkObj [("main", obsToJson o.main), ("verify", obsToJson o.verify),
     ("matches", match o.matched with | some b => Json.bool b | none => Json.null),
     ("after", vToJson o.targetAfter)]
+
+/-- `{"main":Obs,"verify":Obs,"matches":bool|null,"after":V}` -/
+def obs9OfJson (j : Json) : Except String Obs9 := do
+  let mt : Option Bool := match j.getObjVal? "matches" with
+    | .ok (.bool b) => some b
+    | _ => none
+  return { main := ← obsOfJson (← j.getObjVal? "main"), verify := ← obsOfJson (← j.getObjVal? "verify"),
+           matched := mt, targetAfter := ← vOfJson (← j.getObjVal? "after") }
+
+def optObs9OfJson (j : Json) : Except String (Option Obs9) :=
+  match j with
+  | .null => .ok none
+  | _ => do return some (← obs9OfJson j)
+
+def optObs9ToJson : Option Obs9 → Json
+  | none => .null
+  | some o => obs9ToJson o
+
+def optObs9Agree : Option Obs9 → Option Obs9 → Bool
+  | none, none => true
+  | some a, some b => obs9Agree a b
+  | _, _ => false
 
 def hstepOfJson (j : Json) : Except String HStep := do
   if let .ok t := j.getObjVal? "call" then return .call (← vOfJson t)
@@ -55,71 +80,89 @@ def run (j : Json) : Except String Json := do
     | .ok .null => j.getObjVal? "spec"
     | .ok s => pure s
     | .error _ => j.getObjVal? "spec")
-  let targetJ ← (match j.getObjVal? "target_built" with
-    | .ok .null => (match j.getObjVal? "target" with | .ok v => pure v | .error _ => pure Json.null)
-    | .ok s => pure s
-    | .error _ => (match j.getObjVal? "target" with | .ok v => pure v | .error _ => pure Json.null))
   let p ← specOfJson specJ
   let d ← optField j "default" argOfJson
   -- the class table of this case: the declared user classes on top of the generated rows
   let ct := worldRows genEnv.cls (← worldOfJson j)
   let env := genEnv.withCls ct
+  -- "returning the target": `Match(p)` without default over a `selfP` pattern returns the target OBJECT
+  let sameOf := fun (oj : Json) => d.isSome ||
+    ((match oj.getObjVal? "main" with | .ok m => sameOK p m | .error _ => true) &&
+     (match oj.getObjVal? "verify" with | .ok m => sameOK p m | .error _ => true))
   -- the Match object that is used is a copy (copy.copy / copy.deepcopy / pickle round trip) of
   -- the one that was built: the MODEL runs the copy as the extracted marker table says it comes
   -- out, the PROPERTY is judged against the pattern as written (a copy decides like the original)
   let how : String := match j.getObjValAs? String "copy_used" with | .ok h => h | .error _ => "none"
   let ids := facts9.identity
-  let pc := if how == "none" then p else copySpec ids how p
-  let dc := if how == "none" || how == "copy" then d else copyDflt (markerKept ids "_MISSING" how) "_MISSING" d
+  -- "pickle-inner": the pattern alone went through the pickle round trip, then `Match(…)` was built
+  let pc := if how == "none" then p else if how == "pickle-inner" then copySpec ids "pickle" p
+    else copySpec ids how p
+  let dc := if how == "none" || how == "copy" || how == "pickle-inner" then d
+    else copyDflt (markerKept ids "_MISSING" how) "_MISSING" d
   let wf := WF genEnv && WF9 genEnv facts9
   let tagHow := if how == "none" then "" else s!"{how}-"
   -- a history: the same Match OBJECT on several targets, `abc.register()` calls in between;
   -- every call is judged against the class table of its moment
   if let .ok (.arr hs) := j.getObjVal? "hist_built" then
     let steps ← hs.toList.mapM hstepOfJson
-    let obss ← (← arrOf (← j.getObjVal? "impl_hist")).mapM optObsOfJson
+    if steps.isEmpty then throw "empty history"
+    let implJ ← arrOf (← j.getObjVal? "impl_hist")
     match ctorErr p with
     | some e =>
-      let ok := obss == [some (Obs.ctor e.cls)]
+      let ok := implJ.map Json.compress == [(Json.mkObj [("ctor", e.cls)]).compress]
       return Json.mkObj [("agree", ok), ("holds", ok), ("model", obsToJson (Obs.ctor e.cls)),
         ("branch", Json.str s!"hist-{tagHow}{specHead p}:ctor-{e.cls}"), ("wf", wf)]
     | none =>
+      let obss ← implJ.mapM optObs9OfJson
+      if obss.length != steps.length then throw "impl_hist does not match hist (one entry per step)"
+      checkNames ct p (steps.filterMap (fun s => match s with | .call t => some t | _ => none))
       let model := obsHist env pc dc steps ct
-      let agree := model.length == obss.length && (model.zip obss).all (fun q => optObsAgree q.1 q.2)
-      let holds := checkHist p d steps ct obss
+      let agree := model.length == obss.length && (model.zip obss).all (fun q => optObs9Agree q.1 q.2)
+      let holds := checkHist p d steps ct obss && implJ.all (fun oj => oj == Json.null || sameOf oj)
       let firstBad := (List.range (steps.length + 1)).find? (fun n =>
         n ≤ obss.length && !checkHist p d (steps.take n) ct (obss.take n))
       let nreg := (steps.filter (fun s => match s with | .register .. => true | _ => false)).length
       return Json.mkObj [("agree", agree), ("holds", holds),
-        ("model", Json.arr (model.map optObsToJson).toArray),
+        ("model", Json.arr (model.map optObs9ToJson).toArray),
         ("branch", Json.str s!"hist-{tagHow}{specHead p}:{if nreg > 0 then "register" else "calls"}"),
         ("first_failing_step", match (if holds then none else firstBad) with
           | some n => toJson (n - 1) | none => Json.null),
         ("model_holds", checkHist p d steps ct model), ("wf", wf)]
   -- the same Match OBJECT evaluated on several targets, one call after the other: every call
-  -- must decide its own target as if it were the only one (per-target reference)
+  -- must decide its own target as if it were the only one (per-target reference); each call is
+  -- observed in full (glom, verify, matches, snapshot of the target afterwards)
   if let .ok (.arr ts) := j.getObjVal? "targets_built" then
     let targets ← ts.toList.mapM vOfJson
-    let obss ← (← arrOf (← j.getObjVal? "impl_seq")).mapM obsOfJson
+    if targets.isEmpty then throw "empty list of targets"
+    let implJ ← arrOf (← j.getObjVal? "impl_seq")
     match ctorErr p with
     | some e =>
-      let ok := obss == [Obs.ctor e.cls]
+      let ok := implJ.map Json.compress == [(Json.mkObj [("ctor", e.cls)]).compress]
       return Json.mkObj [("agree", ok), ("holds", ok), ("model", obsToJson (Obs.ctor e.cls)),
         ("branch", Json.str s!"seq-{tagHow}{specHead p}:ctor-{e.cls}"), ("wf", wf)]
     | none =>
-      if obss.length != targets.length then throw "impl_seq does not match targets"
-      let rs := (targets.zip obss).map (fun q =>
+      let obss ← implJ.mapM obs9OfJson
+      if obss.length != targets.length then throw "impl_seq does not match targets (one entry per call)"
+      checkNames ct p targets
+      let rs := ((targets.zip obss).zip implJ).map (fun q3 =>
+        let q := q3.1
         let den := denote ct (.matchS p d) q.1
-        let m := observe env (matchGlom env pc dc q.1)
-        (checkCall ct p d q.1 q.2, obsAgree m q.2, m, verdictTag den.1))
+        let m := observe9 env pc dc q.1
+        (checkC09 ct p d q.1 q.2 && sameOf q3.2, obs9Agree m q.2, m, verdictTag den.1))
       let firstBad := (rs.zipIdx.find? (fun r => !r.1.1)).map (·.2)
       return Json.mkObj [("agree", rs.all (·.2.1)), ("holds", rs.all (·.1)),
-        ("model", Json.arr (rs.map (fun r => obsToJson r.2.2.1)).toArray),
+        ("model", Json.arr (rs.map (fun r => obs9ToJson r.2.2.1)).toArray),
         ("branch", Json.str s!"seq-{tagHow}{specHead p}:{match rs.getLast? with | some r => r.2.2.2 | none => "empty"}"),
         ("first_failing_call", match firstBad with | some i => toJson i | none => Json.null),
         ("wf", wf)]
+  let targetJ ← (match j.getObjVal? "target_built" with
+    | .ok .null => j.getObjVal? "target"
+    | .ok s => pure s
+    | .error _ => j.getObjVal? "target")
   let t ← vOfJson targetJ
-  let main ← obsOfJson (← j.getObjVal? "impl")
+  checkNames ct p [t]
+  let mainJ ← j.getObjVal? "impl"
+  let main ← obsOfJson mainJ
   match ctorErr p with
   | some e =>
     let m := Obs.ctor e.cls
@@ -135,7 +178,9 @@ def run (j : Json) : Except String Json := do
     let modelObs := observe9 env pc dc t
     let den := denote ct (.matchS p d) t
     let two := conforms ct p t || dfltOK d t
-    let holds := checkC09 ct p d t implObs
+    let same := d.isSome || (sameOK p mainJ &&
+      (match j.getObjVal? "impl_verify" with | .ok vj => sameOK p vj | .error _ => true))
+    let holds := checkC09 ct p d t implObs && same
     let agree := obs9Agree modelObs implObs
     return Json.mkObj [("agree", agree), ("holds", holds),
       ("model", obs9ToJson modelObs), ("model_holds", checkC09 ct p d t modelObs),
